@@ -313,6 +313,11 @@ func Harness_C11_any_command() {
 	future := time.Now().Add(time.Hour)
 	w.maps.put(&models.PortMapping{ID: "pm1", ListenClientID: c11A, TargetClientID: c11B, Status: models.MappingStatusActive, ExpiresAt: &future,
 		Protocol: models.ProtocolSOCKS, TargetHost: "127.0.0.1", TargetPort: 80, TrafficStats: stats.TrafficStats{BytesSent: 7, BytesReceived: 9}})
+	// a mapping the server itself listens for (HTTP mappings created through the management API
+	// have no listening client): its listen client id is 0, which is also the id of a connection
+	// that never authenticated
+	w.maps.put(&models.PortMapping{ID: "pm0", ListenClientID: 0, TargetClientID: c11B, Status: models.MappingStatusActive, ExpiresAt: &future,
+		Protocol: models.ProtocolHTTP, TargetHost: "127.0.0.1", TargetPort: 8080, TrafficStats: stats.TrafficStats{BytesSent: 5, BytesReceived: 6}})
 	code, cerr := w.svc.CreateConnectionCode(&conncode.CreateRequest{TargetClientID: c11A, TargetAddress: "tcp://127.0.0.1:22",
 		ActivationTTL: time.Hour, MappingDuration: time.Hour, CreatedBy: "client-1001"})
 	verif_Assert("C11.setup.code", cerr == nil && code != nil)
@@ -340,7 +345,7 @@ func Harness_C11_any_command() {
 		verif_Quiesce()
 	}
 	body := &c11Body{
-		MappingID: []string{"pm1", dom.ID, "nope"}[verif_Choose(3)],
+		MappingID: []string{"pm1", dom.ID, "nope", "pm0"}[verif_Choose(4)],
 		Code:      code.Code, ListenAddress: "127.0.0.1:7000", TargetAddress: "tcp://127.0.0.1:23", ActivationTTL: 600, MappingTTL: 600,
 		TargetURL: "http://127.0.0.1:3000", Subdomain: "fresh", BaseDomain: "t.net",
 		TunnelID: "tun-9", TargetClientID: []int64{-1, c11A, c11B, c11S}[verif_Choose(4)], TargetHost: "example.org", TargetPort: 443,
@@ -386,6 +391,13 @@ func Harness_C11_any_command() {
 		verif_Assert("C11.tunnel_request.reaches_target", rqB)
 		verif_Cover("C11.socks5_by_listen_client")
 	}
+	// (1c) the server-listened mapping belongs to its target client only
+	if who != c11B {
+		p0, e0 := w.maps.GetPortMapping("pm0")
+		verif_Assert("C11.server_mapping.kept", e0 == nil && p0 != nil && p0.TargetClientID == c11B && p0.ListenClientID == 0)
+		verif_Assert("C11.server_mapping.traffic_unchanged", p0.TrafficStats.BytesSent == 5 && p0.TrafficStats.BytesReceived == 6)
+		verif_Assert("C11.server_mapping.not_disclosed", !reply.has("pm0"))
+	}
 	// (2) the victims' objects are untouched unless the requester is a party
 	pm, perr := w.maps.GetPortMapping("pm1")
 	if !partyMapping {
@@ -409,7 +421,7 @@ func Harness_C11_any_command() {
 	// (3) whatever was created belongs to the connection's identity, never to a claimed one
 	for _, mid := range w.maps.order {
 		mp, ok := w.maps.m[mid]
-		if mid == "pm1" || !ok {
+		if mid == "pm1" || mid == "pm0" || !ok {
 			continue
 		}
 		verif_Assert("C11.new_mapping.identity", who != 0 && mp.ListenClientID == who)
